@@ -1,5 +1,6 @@
 import SnaxVerif.Props.C07
 import SnaxVerif.Lemmas.AccfgLinksAnnot
+import SnaxVerif.Lemmas.AccfgLinksFuel
 /-!
 # C07, second half — "Threading of state through control flow links each setup to the setup that really precedes it
 on every path", and "whatever the compiler assumes … is true", for the state-typed SSA values themselves.
@@ -75,6 +76,16 @@ theorem inferL_fuel_irrelevant (D : StateId → Option LDef) {m m' : Nat} (h : m
     {A : List (StateId × LState)} {v : StateId} {s : LState} (hr : inferL D m A v = some s) :
     inferL D m' A v = some s :=
   inferL_mono_le D h hr
+
+/-- … and `fuelOf` IS enough: on every traced program whose owner table passes the two decidable shape checks the
+driver evaluates on every case (`rankedChk`: every link goes to a smaller state id except the yield operand of a
+loop-carried block argument — the one cycle, which `assume` cuts; `closedChk`: every link target has an owner), the
+inference of every state value terminates within `fuelOf` = (number of state values + 2)² steps of recursion depth.
+Measure: (block arguments not yet assumed) × K + id. -/
+theorem inferL_fuel_suffices (L : LBlock) (hr : rankedChk (ldefsB L) (ldefsB L).length = true)
+    (hc : closedChk (ldefsB L) = true) (v : StateId) (hv : tableOf L v ≠ none) :
+    ∃ s, inferL (tableOf L) (fuelOf L) [] v = some s :=
+  fuelOf_enough L hr hc v hv
 
 /-- **Whatever the compiler assumes holds.** For every program `p`, hardware configuration (every clobber behaviour
 of unannotated calls), initial environment and register file, every branch outcome and every trip count: at every
@@ -161,6 +172,8 @@ def demoP : PBlock :=
 example : nodupPB demoP = true := by decide
 example : plainPB demoP = true := by decide
 example : allCurB (weave demoP) = true := by decide
+example : rankedChk (ldefsB (weave demoP)) (ldefsB (weave demoP)).length = true ∧ closedChk (ldefsB (weave demoP)) = true := by
+  decide
 example : wfB (eraseP demoP) = true := by decide
 /-- the links the pass creates: the stale link of the first loop setup is replaced by the block argument (id 2) whose
 init is the empty setup (id 1) inserted after the call; loop result 5; the conditional yields (result 7, then 6,
